@@ -836,11 +836,28 @@ impl endpoint::Session for Session {
         let first = disposition.first;
         let last = disposition.last.unwrap_or(first);
 
+        // The range is supplied by the peer and may span the whole sequence space: when it
+        // is wider than the number of deliveries the session knows about, visit those
+        // instead of every number in the range
+        let in_range: Vec<DeliveryNumber> =
+            if (last.saturating_sub(first) as usize) < self.delivery_tag_by_id.len() {
+                (first..=last).collect()
+            } else {
+                let mut ids: Vec<DeliveryNumber> = self
+                    .delivery_tag_by_id
+                    .keys()
+                    .filter(|(role, id)| *role == disposition.role && (first..=last).contains(id))
+                    .map(|(_, id)| *id)
+                    .collect();
+                ids.sort_unstable();
+                ids
+            };
+
         // A disposition frame may refer to deliveries on multiple links, each may be running
         // in different mode. This counts the largest sections that can be echoed back together
         if disposition.settled {
             // If it is alrea
-            for delivery_id in first..=last {
+            for delivery_id in in_range {
                 let key = (disposition.role.clone(), delivery_id);
                 if let Some((handle, delivery_tag)) = self.delivery_tag_by_id.remove(&key) {
                     if let Some(link_handle) = self.link_by_input_handle.get_mut(&handle) {
@@ -857,7 +874,7 @@ impl endpoint::Session for Session {
             Ok(None)
         } else {
             let mut delivery_ids = Vec::new();
-            for delivery_id in first..=last {
+            for delivery_id in in_range {
                 let key = (disposition.role.clone(), delivery_id);
                 if let Some((handle, delivery_tag)) = self.delivery_tag_by_id.get(&key) {
                     if let Some(link_handle) = self.link_by_input_handle.get_mut(handle) {
